@@ -414,4 +414,3 @@ func paramUses(prm *ssa.Parameter) []ssa.Instruction {
 	}
 	return uses
 }
-
